@@ -88,12 +88,12 @@ func (f *Map) Call(s *slip.Scope, args slip.List, depth int) (result slip.Object
 			for i, seq := range seqs {
 				ca[i] = seq[n]
 			}
-			rlist[n] = caller.Call(s, ca, d2)
+			rlist[n] = slip.PrimaryValue(caller.Call(s, ca, d2))
 		}
 	} else {
 		// The most common case.
 		for _, v := range seqs[0] {
-			rlist = append(rlist, caller.Call(s, slip.List{v}, d2))
+			rlist = append(rlist, slip.PrimaryValue(caller.Call(s, slip.List{v}, d2)))
 		}
 	}
 	switch rt {
